@@ -277,3 +277,57 @@ func VerifC19Concurrent() {
 	}
 	vf.Reach("done")
 }
+
+// zzteeWriter keeps a copy of every frame and passes the frame on to the package's own Handler.
+type zzteeWriter struct {
+	rec zzrecWriter
+	h   *Handler
+}
+
+func (w *zzteeWriter) Write(b []byte) (int, error) {
+	w.rec.Write(b)
+	return w.h.Write(b)
+}
+
+// VerifC19Subscriber: the stream feeding the package's own Handler (as the proxy binary wires
+// it) with a subscriber that lags behind - it takes nothing until everything has been logged.
+// What it then receives is, frame for frame, what the stream emitted.
+func VerifC19Subscriber() {
+	vf.FixedSchedule(true) // the subject is what the frames hold, under one schedule
+	h := NewHandler()
+	fc := make(chan []byte, 64)
+	h.subscribe("s", fc)
+	w := &zzteeWriter{h: h}
+	s := NewStream(w)
+	msgs := 1 + vf.Choice("requests", 2)
+	for k := 0; k < msgs; k++ {
+		req := zzc19req("v" + string(rune('0'+k)))
+		_, remove, err := martian.TestContext(req, nil, nil)
+		vf.Assert(err == nil, "test-context")
+		reads := 1 + vf.Choice("reads", 3)
+		sb := &zzstepBody{data: vf.Bytes("body", 2*reads)}
+		for i := 0; i < reads; i++ {
+			st := zzstep{n: 1 + vf.Choice("n", 2)}
+			if i == reads-1 {
+				st.err = io.EOF
+			}
+			sb.steps = append(sb.steps, st)
+		}
+		req.Body = sb
+		vf.Assert(s.LogRequest("request"+string(rune('0'+k)), req) == nil, "log-request")
+		for i := 0; i < reads+1; i++ {
+			p := make([]byte, 2)
+			if _, e := req.Body.Read(p); e == io.EOF {
+				break
+			}
+		}
+		remove()
+	}
+	vf.Quiesce()
+	vf.Assert(len(fc) == len(w.rec.writes), "subscriber-receives-every-frame")
+	for i := 0; i < len(w.rec.writes) && len(fc) > 0; i++ {
+		got := <-fc
+		vf.Assert(bytes.Equal(got, w.rec.writes[i]), "subscriber-receives-the-frames-as-emitted")
+	}
+	vf.Reach("done")
+}
